@@ -55,6 +55,13 @@ def _constructed():
         {"id": "c-break-server-exit-late", "inst": ab, "cmds": up + [{"a": "Break", "i": "a", "j": "b"}, CE("a", "b", 11, 21), Rec("a"), SE("a", "b", 11, 21), RM("b", 11, 21)]},
         {"id": "c-leave", "inst": ab, "cmds": up + [{"a": "Leave", "i": "a", "j": "b"}, Rec("a"), RA("a", 11, 21), SE("a", "b", 11, 21), CE("a", "b", 11, 21), Rec("b")]},
         {"id": "c-owner-lost-shard", "inst": ab, "cmds": up + [R("b", 21), RM("a", 21, 11), Rec("b"), Rec("a")]},
+        # back-pressure: the local consumer of the target (source) shard is stalled while messages (acks) arrive from the peer
+        {"id": "c-backpressure-msg", "inst": ab, "cmds": up + [{"a": "Stall", "i": "a", "sh": 11}, RM("b", 11, 21), RM("b", 11, 21), RM("b", 11, 21), RM("b", 11, 21),
+                                                                {"a": "Unstall", "i": "a", "sh": 11}, RM("b", 11, 21)]},
+        {"id": "c-backpressure-ack", "inst": ab, "cmds": up + [{"a": "Stall", "i": "b", "sh": 21}, RA("a", 11, 21), RA("a", 11, 21), RA("a", 11, 21), RA("a", 11, 21),
+                                                                {"a": "Unstall", "i": "b", "sh": 21}, RA("a", 11, 21)]},
+        {"id": "c-backpressure-both", "inst": ab, "cmds": up + [{"a": "Stall", "i": "a", "sh": 11}, RM("b", 11, 21), RA("b", 21, 11), RM("b", 11, 21), RA("b", 21, 11), RM("b", 11, 21),
+                                                                 {"a": "Unstall", "i": "a", "sh": 11}, {"a": "Stall", "i": "a", "sh": 11}, RM("b", 11, 21), RM("b", 11, 21)]},
         {"id": "c-two-pairs", "inst": ab, "cmds": [A("a", 11), A("a", 12), A("b", 21), V("a", "b", [21]), V("b", "a", [11, 12]), Rec("a"), Rec("b"), RM("b", 11, 21), RM("b", 12, 21),
                                                    RA("a", 12, 21), R("a", 12), Rec("a"), RM("b", 11, 21)]},
     ]
@@ -285,6 +292,7 @@ def run_extra(c):
         "schedules_replayed": len(runs), "constructed": nconstructed, "generated_distinct": ngen, "events_validated": len(events),
         "steps_by_action": acts, "unrealised_commands": unreal, "slow_handoffs": slow,
         "runs_with_violation": len(bad_runs), "violation_causes": causes,
+        "handoffs_under_backpressure": sum(1 for r in runs for e in r if e["ev"] == "Step" and e.get("stalled")),
         "streams_opened": sum(1 for r in runs for e in r if e["ev"] == "Quiet" for _ in e["srv"]),
     })
     c.coverage["intraproxy"] = cov
